@@ -204,11 +204,27 @@ def history_config(r, hooks=(), big=False):
                 seenf.add(tuple(f[:3]))
                 uniq.append(f)
         force = uniq
+    verdicts = None
+    if kind != 'many' and r.random() < 0.3:
+        # residual-based stopping with a scripted convergence pattern: the steps of a block finish in different iterations
+        # (a later step may be converged, or flagged for restart, while its predecessor still iterates)
+        K = r.randint(2, 5)
+        cfg['step']['maxiter'] = K
+        cfg['level']['restol'] = 0.5
+        pc = r.choice([0.2, 0.4, 0.6, 0.8])
+        table = [[[b, s, k], 1 if r.random() < pc else 0] for b in range(min(maxb, 40)) for s in range(P) for k in range(K)]
+        verdicts = {'default': 0, 'table': table}
+        if 'InjVerdict' not in plugins:
+            plugins.append('InjVerdict')
+    faults = {'restarts': restarts, 'dtnew': dtnew, 'force': force}
+    if verdicts is not None:
+        faults['verdicts'] = verdicts
+        faults['restart_any_iter'] = True
     return {
         'engine': 'blocksim',
         'config': cfg,
         'plugins': plugins,
-        'faults': {'restarts': restarts, 'dtnew': dtnew, 'force': force},
+        'faults': faults,
         'max_events': 150000,
         'axis_kind': kind,
     }
@@ -393,6 +409,9 @@ def c09_real(r):
     if r.random() < 0.3:
         ad['dt_rel_min_slope'] = r.choice([0.1, 0.25])
     br = {'max_restarts': r.choice([2, 5, 10]), 'crash_after_max_restarts': r.random() < 0.5, 'restart_from_first_step': r.random() < 0.3}
+    if which.endswith('sdc') and r.random() < 0.35:
+        # keep iterating instead of restarting when the contraction-factor estimate predicts convergence within a few sweeps
+        ad['avoid_restarts'] = True
     if which.startswith('vdp'):
         prob = {'class': 'vanderpol', 'params': {'mu': r.choice([0.5, 2.0, 5.0, 10.0]), 'newton_tol': 1e-10, 'newton_maxiter': 50, 'u0': [2.0, 0.0]}}
         dt, T = r.choice([0.05, 0.1, 0.2]), r.choice([0.5, 1.0, 2.0])
